@@ -54,6 +54,7 @@ DesScript(m, p, s) ==
 
 \* ---- digest-based methods, over the compression graph observed in the call --------------
 D == INSTANCE Digest
+M == INSTANCE Mac
 \* cfs: sequence of [a, in, blk, out]; the digest of msg under algorithm a (<<>> if a needed application is missing)
 \* cfs is either the flat sequence of applications [a, in, blk, out] (searched as a whole: fully
 \* extensional), or -- for calls with tens of thousands of applications (sunmd5) -- a record
@@ -62,8 +63,10 @@ D == INSTANCE Digest
 \* chains that start with the message's first block.
 CfsOf(cfs, a) == SelectSeq(cfs, LAMBDA c : c.a = a)
 HInst(inst, a, msg) ==
-  LET b1 == D!Chunks(D!Pad(a, msg), D!BlockSize(a))[1]
-      C == {i \in 1..Len(inst) : inst[i].a = a /\ inst[i].c[1].blk = b1}
+  LET bs == D!Chunks(D!Pad(a, msg), D!BlockSize(a))
+      n == Len(bs)
+      \* candidates: chains of the right length whose first and last blocks are the message's
+      C == {i \in 1..Len(inst) : inst[i].a = a /\ Len(inst[i].c) = n /\ inst[i].c[1].blk = bs[1] /\ inst[i].c[n].blk = bs[n]}
       R == {D!StdDigest(a, msg, inst[i].c) : i \in C} \ {<<>>} IN
   IF R = {} THEN <<>> ELSE CHOOSE r \in R : TRUE
 H(cfs, a, msg) == IF cfs.k = "inst" THEN HInst(cfs.c, a, msg) ELSE D!StdDigest(a, msg, CfsOf(cfs.c, a))
@@ -144,7 +147,6 @@ HmacSha1(cfs, key, msg) ==
   LET k0 == IF Len(key) > 64 THEN H(cfs, "sha1", key) ELSE key IN
   IF k0 = <<>> /\ Len(key) > 64 THEN <<>> ELSE
   LET kp == k0 \o Zeros(64 - Len(k0))
-      M == INSTANCE Mac
       inner == H(cfs, "sha1", M!XorC(kp, 54) \o msg) IN
   IF inner = <<>> THEN <<>> ELSE H(cfs, "sha1", M!XorC(kp, 92) \o inner)
 Sha1crypt(cfs, p, salt, iters) ==          \* iters: canonical decimal digits, value < 2^31
